@@ -374,6 +374,12 @@ class PageRenderer:
 
                     # Update state
                     last_values.update(new_values)
+                    # A level that turned into a divider ("-----") shows no heading;
+                    # forget its previous value so the next real value is rendered
+                    # again even if it equals the one shown before the divider.
+                    for col_name in page_by_cols:
+                        if col_name not in new_values:
+                            last_values.pop(col_name, None)
 
                 prev_row = page_rel_row
 
